@@ -13,7 +13,6 @@ import (
 	"strings"
 	"sync"
 	"sync/atomic"
-	"time"
 
 	"github.com/shutter-network/rolling-shutter/rolling-shutter/keyper/database"
 	"github.com/shutter-network/rolling-shutter/rolling-shutter/keyper/kprapi"
@@ -201,6 +200,10 @@ func runCase(env *vlib.Env, idx int, rep *vlib.Reporter) {
 	router := srv.VerifRouter()
 	var triggers, shutdowns atomic.Int64
 	stop := make(chan struct{})
+	// barrier: a monitor goroutine that answers on its sync channel has finished counting every
+	// event it received before (the handlers' channel sends are synchronous, so every event of a
+	// completed request was received before ServeHTTP returned)
+	syncT, syncS := make(chan chan struct{}), make(chan chan struct{})
 	var wg sync.WaitGroup
 	wg.Add(2)
 	go func() {
@@ -211,6 +214,8 @@ func runCase(env *vlib.Env, idx int, rep *vlib.Reporter) {
 				if ev != nil {
 					triggers.Add(1)
 				}
+			case ack := <-syncT:
+				close(ack)
 			case <-stop:
 				return
 			}
@@ -222,11 +227,20 @@ func runCase(env *vlib.Env, idx int, rep *vlib.Reporter) {
 			select {
 			case <-srv.VerifShutdownChan():
 				shutdowns.Add(1)
+			case ack := <-syncS:
+				close(ack)
 			case <-stop:
 				return
 			}
 		}
 	}()
+	barrier := func() {
+		for _, c := range []chan chan struct{}{syncT, syncS} {
+			ack := make(chan struct{})
+			c <- ack
+			<-ack
+		}
+	}
 	defer func() { close(stop); wg.Wait() }()
 	reqs := genRequests(r)
 	do := func(q request) (int, string, bool) {
@@ -271,14 +285,7 @@ func runCase(env *vlib.Env, idx int, rep *vlib.Reporter) {
 			rep.Obs("unexpressible_requests", 1)
 			continue
 		}
-		// the handler's channel send has completed when ServeHTTP returns, but the monitor
-		// goroutine increments its counter after the receive: wait for the counters to settle
-		// where a value is expected (logical condition; the sleep only yields the processor)
-		if write && q.verbatim && q.method == "POST" {
-			for w := 0; w < 2000 && triggers.Load()-t0+shutdowns.Load()-s0 < 3; w++ {
-				time.Sleep(100 * time.Microsecond)
-			}
-		}
+		barrier()
 		rep.Obs("requests", int64(len(codes)))
 		rep.Eval(cfgName+" "+q.method+" "+q.path+" "+q.bodyKind, !q.verbatim)
 		if codes[0] != codes[1] || codes[1] != codes[2] {
@@ -343,8 +350,8 @@ func runCase(env *vlib.Env, idx int, rep *vlib.Reporter) {
 		}
 	}
 	if !write {
-		// settle, then the counters must still be zero for the whole sequential pass
-		time.Sleep(5 * time.Millisecond)
+		// the counters must still be zero for the whole sequential pass
+		barrier()
 		if triggers.Load() != 0 || shutdowns.Load() != 0 {
 			rep.Violationf("write-operation-reached", map[string]any{"request": "sequential pass (not attributed to a single request)"}, "with write operations disabled a state-changing operation was reached")
 			return
@@ -364,7 +371,7 @@ func runCase(env *vlib.Env, idx int, rep *vlib.Reporter) {
 		}(g)
 	}
 	cw.Wait()
-	time.Sleep(5 * time.Millisecond)
+	barrier()
 	rep.Obs("concurrent_requests", int64(len(reqs)))
 	if !write && (triggers.Load() != t0 || shutdowns.Load() != s0) {
 		rep.Violationf("write-operation-reached", map[string]any{"request": "concurrent pass"}, "with write operations disabled a state-changing operation was reached during the concurrent pass")
